@@ -19,3 +19,13 @@ package fx
 //@   requires chanLen(pool) >= 1
 //@   ensures  chanLen(pool) == old(chanLen(pool)) - 1 && calls(fn) == old(calls(fn)) + 1
 //@   ensures_panic chanLen(pool) == old(chanLen(pool)) - 1
+
+// C04 fx.DoWithTimeout: fn runs under WithTimeout(parent, timeout); the timeout arm returns the context's error.
+//@ func DoWithTimeout
+//@   property C04
+//@   flag private_channels callbacks_noheap noheap:cancel nopanic:cancel
+//@   ghost at entry: armT = false
+//@   ghost at after Done#0: armT = true
+//@   call WithTimeout#0: assert arg_timeout == timeout
+//@   ensures implies(armT, result == ctxErr[ctx])
+//@   loop 0: invariant true
